@@ -402,6 +402,7 @@ def run(ctx):
     _frozen_after_recording(ctx)
     _no_zero_in_lists(ctx)
     _next_index_after_renumbering(ctx)
+    _stale_loop_counters(ctx)
 
 def _registered_hash(ctx):
     """R11.5: names are made unique through the _wrappers_by_hash registry; the
@@ -783,3 +784,97 @@ def _next_index_after_renumbering(ctx):
             ctx.ob("R11.8", inst, not before, f.loc(c),
                    "%s() writes get_next_index() into the generated code (in %s) and is called %s remap_indices(remaps)" % (t.name, ", ".join(hit), "BEFORE" if before else "after"))
     ctx.floor("R11.8", "calls in write_code that reach a reader of get_next_index()", n, 1)
+
+
+def _stale_loop_counters(ctx):
+    """R11.9: after `for (i = 0; i < n; i++)` has finished, i equals n - the one value that is NOT a position of the list
+    the loop walked.  A counter that outlives its loop (declared before it) and is then used as a position argument /
+    subscript without being assigned again names either nothing or an unrelated entry; in record_object() such a slip
+    records a synthesised downcast against the wrong base class (seed S6-C11): database and generated code then
+    disagree about the wrapper's `this`."""
+    db = ctx.db
+    ctx.rule("R11.9", "in the generators and the database library, the control variable of a finished counted for-loop is not used as a position (argument of a by-position accessor, subscript) before it is assigned again")
+    n_loops = 0
+    for f in db.functions:
+        if not any(d in f.file for d in ("/interrogate/", "/interrogatedb/")):
+            continue
+        loops = [lp for lp in f.walk() if lp.get("k") == "for" and lp.get("init") is not None]
+        for lp in loops:
+            t = assigned_target(peel(lp["init"])) if peel(lp["init"]) is not None else None
+            v = local_ref(t[0]) if t else None
+            if v is None:
+                continue        # counter declared in the loop header: out of scope afterwards
+            cond = lp.get("c")
+            if cond is None or not any((local_ref(y) or {}).get("d") == v["d"] for y in walk(cond) if y.get("k") == "ref"):
+                continue
+            n_loops += 1
+            d = v["d"]
+            inside = {id(y) for y in walk(lp)}
+            # blocks that assign the counter outside this loop (another loop's init, a plain assignment)
+            reassign = set()
+            for y in f.walk():
+                if id(y) in inside:
+                    continue
+                ty = assigned_target(y)
+                if ty and (local_ref(ty[0]) or {}).get("d") == d:
+                    loc = f.cfg.locate(y)
+                    if loc:
+                        reassign.add(loc)
+            # exit of the loop: false edge of its condition
+            cl = None
+            for y in walk(cond):
+                cl = f.cfg.locate(y)
+                if cl:
+                    break
+            if cl is None:
+                continue
+            exits = [s for s in f.cfg.blocks[cl[0]].succs if s is not None]
+            body_first = None
+            for y in walk(lp.get("body") or {}):
+                body_first = f.cfg.locate(y)
+                if body_first:
+                    break
+            after = [s for s in exits if body_first is None or s != body_first[0]]
+            for use in f.walk():
+                if id(use) in inside:
+                    continue
+                pos_arg = None
+                if use.get("k") == "call" and use.get("a") and "this" in use:
+                    for a in use["a"]:
+                        if (local_ref(strip_casts(peel(a))) or {}).get("d") == d and (strip_casts(peel(a)) or {}).get("k") == "ref":
+                            pos_arg = a
+                elif use.get("k") in ("idx", "sub", "index"):
+                    ix = use.get("i2") or use.get("y") or use.get("idx")
+                    if ix is not None and (local_ref(strip_casts(peel(ix))) or {}).get("d") == d:
+                        pos_arg = ix
+                if pos_arg is None:
+                    continue
+                lu = f.cfg.locate(use)
+                if lu is None:
+                    continue
+                # dirty = reachable from the loop exit without passing a re-assignment of the counter; a block that holds a
+                # re-assignment is dirty only up to that position and does not pass the dirt on
+                first_re = {}
+                for (bb, pp) in reassign:
+                    first_re[bb] = min(pp, first_re.get(bb, pp))
+                dirty_upto = {}
+                stack = list(after)
+                seen = set()
+                while stack:
+                    bb = stack.pop()
+                    if bb in seen:
+                        continue
+                    seen.add(bb)
+                    if bb in first_re:
+                        dirty_upto[bb] = first_re[bb]
+                        continue
+                    dirty_upto[bb] = 1 << 30
+                    if f.cfg.blocks[bb].noret:
+                        continue
+                    stack.extend(x for x in f.cfg.blocks[bb].succs if x is not None)
+                stale = lu[0] in dirty_upto and lu[1] < dirty_upto[lu[0]]
+                if stale:
+                    ctx.ob("R11.9", "%s|%s|counter-of-finished-loop" % (f.name, show(use)[:50]), False, f.loc(use),
+                           "`%s` uses `%s`, the counter of the loop at line %d that has already finished (its value is the loop's bound)" % (show(use)[:60], v.get("n"), f.line_of(lp)))
+    ctx.ob("R11.9", "no-stale-counter-use", True, "src", "%d counted loops whose counter outlives them were examined" % n_loops)
+    ctx.floor("R11.9", "counted loops whose counter is declared before the loop", n_loops, 10)
